@@ -44,7 +44,12 @@ def gen(rng):
     for f in funcs:
         # some functions are STT_GNU_IFUNC: the symbol names a resolver, the value every reference must end up with is what it returns
         f["ifunc"] = rng.random() < 0.3
-        if f["ifunc"]:
+    # every program has a library function and at least one IFUNC in the library (what glibc's strlen, memcpy, ... are)
+    if not any(f["home"] == "lib" for f in funcs):
+        funcs[-1]["home"] = "lib"
+    rng.choice([f for f in funcs if f["home"] == "lib"])["ifunc"] = True
+    for f in funcs:
+        if f["ifunc"] or f["home"] == "lib":
             f["vis"] = "default"
     return data, funcs, tls
 
@@ -154,7 +159,8 @@ def plan(rng, data, funcs, tls, kind):
                     continue
                 if kind == "shared" and f["vis"] == "default" and form == "lea":
                     continue
-                if rng.random() < 0.5:
+                direct_import = kind == "nopie-dyn" and f["home"] == "lib" and form in ("lea", "movabs")     # always exercised: non-PIC code taking the address of an imported function
+                if rng.random() < 0.5 and not direct_import:
                     continue
                 # addresses of one function need not agree across forms for an IFUNC (a pc-relative reference gives the PLT entry, a GOT or data
                 # reference the resolved address, in GNU ld as well) nor for a library function seen from a non-PIC executable (C38's subject)
